@@ -12,6 +12,17 @@ fn valid(x: f64) -> bool {
 
 /// payload: symbolic f64 (any bit pattern) if selected by the mask, else a fixed power of two
 fn pay(mask: u32, bit: u32, concrete: f64) -> f64 {
+    // bits 8.. of the mask select one payload that takes a special value: ((bit + 1) << 3 | kind) << 8
+    let spec = mask >> 8;
+    if spec != 0 && (spec >> 3) - 1 == bit {
+        return match spec & 7 {
+            0 => f64::NAN,
+            1 => -0.0,
+            2 => f64::INFINITY,
+            3 => -1.0,
+            _ => f64::NEG_INFINITY,
+        };
+    }
     if mask & (1 << bit) != 0 {
         kani::any()
     } else {
@@ -132,42 +143,3 @@ macro_rules! c03 {
 }
 include!("c03_patterns.rs");
 
-/// C03-b: new_nvt with one of T, V, N ranging over ALL f64 bit patterns (the other two fixed powers of two;
-/// all three at once exceed 40 GB in CBMC's propositional reduction): Ok echoes the inputs bitwise and they are
-/// finite and not sign-negative; Err(InvalidState) only if the symbolic one is non-finite or sign-negative
-fn c03_nvt_body(which: u8) {
-    let eos = Arc::new(NoResidual(1));
-    let t: f64 = if which == 0 { kani::any() } else { 256.0 };
-    let v: f64 = if which == 1 { kani::any() } else { 64.0 };
-    let n: f64 = if which == 2 { kani::any() } else { 2.0 };
-    let r = State::new_nvt(&eos, Temperature::from_reduced(t), Volume::from_reduced(v), &Moles::from_reduced(arr1(&[n])));
-    let (tq, vq, nq) = (Temperature::from_reduced(t).to_reduced(), Volume::from_reduced(v).to_reduced(), Moles::from_reduced(n).to_reduced());
-    match &r {
-        Ok(s) => {
-            assert!(same_bits(s.temperature.to_reduced(), tq));
-            assert!(same_bits(s.volume.to_reduced(), vq));
-            assert!(same_bits(s.moles.to_reduced()[0], nq));
-            assert!(valid(tq) && valid(vq) && valid(nq));
-            kani::cover!(true);
-        }
-        Err(EosError::InvalidState(_, _, _)) => {
-            assert!(!(valid(tq) && valid(vq) && valid(nq)));
-            kani::cover!(true);
-        }
-        Err(_) => assert!(false),
-    }
-    std::mem::forget(r);
-}
-macro_rules! c03_nvt {
-    ($name:ident, $w:expr) => {
-        #[kani::proof]
-        #[kani::stub(std::hash::RandomState::new, fixed_random_state)]
-        #[kani::unwind(6)]
-        fn $name() {
-            c03_nvt_body($w);
-        }
-    };
-}
-c03_nvt!(c03_new_nvt_any_t, 0);
-c03_nvt!(c03_new_nvt_any_v, 1);
-c03_nvt!(c03_new_nvt_any_n, 2);
